@@ -312,6 +312,7 @@ struct FieldParser<'a> {
     shift: usize,
     chunk: Vec<(usize, usize, &'a ast::Field)>,
     chunk_nr: usize,
+    raw_value_nr: usize,
     unchecked_code: Vec<String>,
     code: Vec<String>,
     is_cond_for: HashSet<String>,
@@ -337,6 +338,7 @@ impl<'a> FieldParser<'a> {
             shift: 0,
             chunk: Vec::new(),
             chunk_nr: 0,
+            raw_value_nr: 0,
             unchecked_code: Vec::new(),
             code: Vec::new(),
             is_cond_for: HashSet::new(),
@@ -456,12 +458,21 @@ impl<'a> FieldParser<'a> {
                             ));
                         }
                         ast::DeclDesc::Enum { .. } => {
-                            self.unchecked_append(format!("auto raw_value = {v};"));
-                            self.unchecked_append(format!("if (!IsValid{type_id}(raw_value)) {{"));
+                            // These statements share the scope of the Parse function: every
+                            // validated enum field needs its own variable.
+                            let raw_value = match self.raw_value_nr {
+                                0 => "raw_value".to_string(),
+                                n => format!("raw_value{n}"),
+                            };
+                            self.raw_value_nr += 1;
+                            self.unchecked_append(format!("auto {raw_value} = {v};"));
+                            self.unchecked_append(format!(
+                                "if (!IsValid{type_id}({raw_value})) {{"
+                            ));
                             self.unchecked_append("   return false;".to_string());
                             self.unchecked_append("}".to_string());
                             self.unchecked_append(format!(
-                                "{}{}_ = {}(raw_value);",
+                                "{}{}_ = {}({raw_value});",
                                 self.target_prefix, id, type_id
                             ));
                         }
